@@ -236,6 +236,14 @@ class PtyWorld(World):
         self.child.ptyproc.isalive = isalive
         self.clock.install(pexpect.pty_spawn, pexpect.expect, pexpect.utils)
 
+    def close_interposition_only(self):
+        """give the module globals back (for harnesses that install their own wrappers)"""
+        ps = pexpect.pty_spawn
+        ps.select_ignore_interrupts, ps.poll_ignore_interrupts, pexpect.spawnbase.os = self._saved[:3]
+        self.child.ptyproc.isalive = self._saved[3]
+        self.clock.uninstall()
+        self.active = False
+
     def close(self):
         ps = pexpect.pty_spawn
         ps.select_ignore_interrupts, ps.poll_ignore_interrupts, pexpect.spawnbase.os = self._saved[:3]
